@@ -43,6 +43,7 @@ CONSTANTS N,            \* number of parallel indexes
           MaxFaults, MaxCrash,
           Fresh,        \* passes only begin on up-to-date caches
           KillDelays,   \* set of delays (0 = now) the user may choose for the kill timestamp; {} = never kills
+          KillEdits,    \* set of delays (99 = remove the timestamp) the user may move a kill timestamp to that has not yet passed
           UserDeletes, ExtDeletes, NodeDowns,  \* BOOLEAN switches for environment actions
           Rejects       \* BOOLEAN: the queue controller may refuse the Job before it starts (admission-error annotation)
 
@@ -200,6 +201,18 @@ UserKill(d) == /\ job.ex /\ job.kill = 0 /\ RoomJ /\ now + d <= MaxTime
                /\ edited' = (edited \/ job.kind = "Finished")
                /\ UNCHANGED <<now, pods, jc, pc, pq, wq, timer, retry, pass, down, faults, crashes, uidc, udel, ttlAt, ttlLB, taint>>
                /\ last' = [a |-> "UserKill", d |-> d] /\ Ghosts
+
+\* the user edits a kill timestamp that is still in the future (moves it, or removes it with d = 99). Admission
+\* (ValidateKillTimestampUpdate) refuses any change once the timestamp has passed, so there is no such action then; an
+\* edit at the very instant of the timestamp is not modelled (discrete clock: the validator compares strictly, the
+\* controller inclusively, a window of measure zero on a real clock).
+UserRekill(d) == /\ job.ex /\ job.kill # 0 /\ job.kill > now /\ RoomJ /\ (d = 99 \/ now + d <= MaxTime)
+                 /\ LET k == IF d = 99 THEN 0 ELSE now + d IN
+                    /\ k # job.kill
+                    /\ WriteJob([job EXCEPT !.kill = k])
+                 /\ edited' = (edited \/ job.kind = "Finished")
+                 /\ UNCHANGED <<now, pods, jc, pc, pq, wq, timer, retry, pass, down, faults, crashes, uidc, udel, ttlAt, ttlLB, taint>>
+                 /\ last' = [a |-> "UserRekill", d |-> d] /\ Ghosts
 
 \* DELETE of a Job: finalizer present => deletionTimestamp; otherwise the object is removed
 ApiDeleteJob == IF job.fz THEN WriteJob([job EXCEPT !.del = TRUE]) ELSE (rvc' = rvc + 1 /\ job' = NoJob /\ EmitJob(NoJob))
@@ -471,6 +484,7 @@ Init ==
 
 Env == \/ Tick \/ Start \/ Reject \/ UserDelete \/ DeliverJob \/ DeliverPod \/ TimerFire \/ RetryFire \/ CrashRestart
        \/ \E d \in KillDelays : UserKill(d)
+       \/ \E d \in KillEdits : UserRekill(d)
        \/ \E s \in Slots : Kubelet(s, "R") \/ Kubelet(s, "S") \/ Kubelet(s, "F") \/ KubeletGone(s) \/ NodeDown(s) \/ ExternalDelete(s)
 Next == Env \/ SyncBegin \/ \E f \in {"ok", "error", "conflict"} : Step(f)
 Spec == Init /\ [][Next]_vars
@@ -517,6 +531,8 @@ C12_DeleteJustified == [][Ok(IsStep => \A s \in last'.dels : (pods[s].ex /\ pods
                     \/ v.j.del
                     \/ DecidedTruth(pods', ever', succ')
                     \/ DecidedRec(job'))]_vars
+\* a kill timestamp that has passed is never changed or removed
+C12_KillSticky == [][(job.ex /\ job'.ex /\ job.kill # 0 /\ job.kill <= now) => job'.kill = job.kill]_vars
 C12_ForceGate == [][Ok(IsStep => \A s \in last'.fdels : (pods[s].ex /\ pods[s].mine) => LET v == last'.view IN
                     /\ FD > 0 /\ ~Forbid
                     /\ ((pods[s].dl # 0 /\ now' >= pods[s].dl + FD) \/ (v.p[s].ex /\ v.p[s].dl # 0 /\ now' >= v.p[s].dl + FD)))]_vars
